@@ -159,6 +159,10 @@ def generate(rng, tier):
         # make sure translucent flat colours occur so that Src and Over differ
         t3 = t3[:6] + ["CS", "0", "CR", "0", "0", "#" + rng.choice(["80000080", "40404040", "00008080", G.rpremul(rng)])] + t3[6:]
         g["drawop"].append("PIXOP %s %d %d %s" % (kind, rng.choice(sizes[2:8]), rng.choice(sizes[2:8]), " ".join(t3)))
+        # far larger scale exponents (no float32 overflow / underflow yet): quantities of higher degree in the coordinates
+        # (products of radii and offsets in the arc code) move by 2^(4k)
+        k7 = rng.choice([-14, -12, -10, -9, -8, 8, 10, 12])
+        g.setdefault("scale-deep", []).append("PIXEQ %s %d %d %s | %s" % (kind, w2, rng.choice(sizes[:9]), " ".join(t), " ".join(s.tokens(k=k7))))
         # the first Draw consumes the operator even when it goes to an empty rectangle (then the Renderer is re-targeted)
         s6 = Script(rng, gradients=False)
         t6 = s6.tokens()
